@@ -77,9 +77,27 @@ abbrev Single := List (Key × Nat)
 abbrev Variadic := List (Key × (Bool × List Nat))
 abbrev Args := List (String × ArgVal)
 
-/-- evaluation of a symbolic axis: first the f-string pass over the arguments, then `eval`
-    over the single-axis memo. `NameError` from either becomes `AnnotationError`. -/
-def Expr.eval (args : Args) (σ : Single) : Expr → Res Int
+/-- holes of an expression in textual (left-to-right) order -/
+def Expr.holes : Expr → List String
+  | .lit _ => []
+  | .var _ => []
+  | .hole x => [x]
+  | .neg a => a.holes
+  | .add a b | .sub a b | .mul a b | .fdiv a b => a.holes ++ b.holes
+
+/-- the f-string pass `eval(f"f'{elem}'", arguments)`: every `{x}` is formatted, left to right,
+    before anything is evaluated; a missing argument is a NameError (-> AnnotationError), user
+    code raising while being formatted propagates -/
+def holesPass (args : Args) : List String → Res Unit
+  | [] => .ok ()
+  | h :: hs =>
+    match args.lookup h with
+    | some (.int _) => holesPass args hs
+    | some (.raises e) => .exc e
+    | none => .annErr
+
+/-- the second pass `eval(elem, single_memo)`; `NameError` becomes `AnnotationError` -/
+def Expr.evalCore (args : Args) (σ : Single) : Expr → Res Int
   | .lit n => .ok n
   | .var x => match σ.lookup (.plain x) with
     | some n => .ok n
@@ -88,13 +106,25 @@ def Expr.eval (args : Args) (σ : Single) : Expr → Res Int
     | some (.int n) => .ok n
     | some (.raises e) => .exc e
     | none => .annErr
-  | .neg a => do let x ← a.eval args σ; pure (-x)
-  | .add a b => do let x ← a.eval args σ; let y ← b.eval args σ; pure (x + y)
-  | .sub a b => do let x ← a.eval args σ; let y ← b.eval args σ; pure (x - y)
-  | .mul a b => do let x ← a.eval args σ; let y ← b.eval args σ; pure (x * y)
+  | .neg a => do let x ← a.evalCore args σ; pure (-x)
+  | .add a b => do let x ← a.evalCore args σ; let y ← b.evalCore args σ; pure (x + y)
+  | .sub a b => do let x ← a.evalCore args σ; let y ← b.evalCore args σ; pure (x - y)
+  | .mul a b => do let x ← a.evalCore args σ; let y ← b.evalCore args σ; pure (x * y)
   | .fdiv a b => do
-      let x ← a.eval args σ; let y ← b.eval args σ
+      let x ← a.evalCore args σ; let y ← b.evalCore args σ
       if y = 0 then .exc .exception else pure (Int.fdiv x y)
+
+def gate (p : Res Unit) (r : Res Int) : Res Int :=
+  match p with
+  | .ok _ => r
+  | .fail => .fail
+  | .annErr => .annErr
+  | .exc e => .exc e
+
+/-- evaluation of a symbolic axis: first the f-string pass over the arguments, then `eval`
+    over the single-axis memo. -/
+def Expr.eval (args : Args) (σ : Single) (e : Expr) : Res Int :=
+  gate (holesPass args e.holes) (e.evalCore args σ)
 
 /-- single-axis specifiers -/
 inductive Dim
